@@ -763,7 +763,7 @@ pub fn run(ctx: &Ctx) -> i32 {
     });
     let ev = Evidence {
         level: "exploration",
-        rule: "One sim = one simulated match fragment (1-14 plies from startpos or a playout FEN, both colours to move): per ply `position ... moves ...` and `go wtime W btime B [winc I binc J]` with the tokens in a seeded order (one go in six also carries `movestogo n`, one in eight a `depth` cap, before or after them), clock values from 0 / 1 ms / below the 5 s reserve / around it / seconds / minutes / hours, increments 0 / small / large / equal to or larger than the remaining time; the mover's clock is then debited and credited like a GUI does. Most sims let every search expire at its first clock read (the budget is observed where the real go handler arms the real timer, so the search itself is irrelevant); one in five runs real searches under a cost model, and one sim in twenty lets the engine think long (1-5 us per node, budgets of 0.2-2.5 s: 10^5..10^6 nodes per move, time scrambles with a large increment or comfortable clocks), where additionally the virtual time from go to bestmove must not exceed the mover's remaining time by more than the overrun C07 allows (4096 nodes). Each go is followed by a twin with the opponent's clock and increment replaced and the tokens permuted. For one clocked go per session (not the first) the same position and go in a fresh process must arm the same budget (history independence; gos of one game sometimes leave the increments out). Oracle: a budget is armed; budget <= mover's remaining time; < when any time remains; twin arms the same budget; in sims whose searches really run, bestmove comes within the mover's remaining time. Evaluations = clocked go commands judged; distinct by (side, remaining, increment, token order). One go in seven has its four clock pairs interleaved with movestogo / depth / nodes pairs (its twin keeps the layout and replaces the opponent's values); one in ten (one in three of the long-think sims) carries a searchmoves list before or after the clocks.".into(),
+        rule: "One sim = one simulated match fragment (1-14 plies from startpos or a playout FEN, both colours to move): per ply `position ... moves ...` and `go wtime W btime B [winc I binc J]` with the tokens in a seeded order (one go in six also carries `movestogo n`, one in eight a `depth` cap, before or after them), clock values from 0 / 1 ms / below the 5 s reserve / around it / seconds / minutes / hours, increments 0 / small / large / equal to or larger than the remaining time; the mover's clock is then debited and credited like a GUI does. Most sims let every search expire at its first clock read (the budget is observed where the real go handler arms the real timer, so the search itself is irrelevant); one in five runs real searches under a cost model, and one sim in twenty lets the engine think long (1-5 us per node, budgets of 0.2-2.5 s: 10^5..10^6 nodes per move, time scrambles with a large increment or comfortable clocks), where additionally the virtual time from go to bestmove must not exceed the mover's remaining time by more than the overrun C07 allows (4096 nodes). Each go is followed by a twin with the opponent's clock and increment replaced and the tokens permuted. For one clocked go per session (not the first) the same position and go in a fresh process must arm the same budget (history independence; gos of one game sometimes leave the increments out). Oracle: a budget is armed; budget <= mover's remaining time; < when any time remains; twin arms the same budget; in sims whose searches really run, bestmove comes within the mover's remaining time. Evaluations = clocked go commands judged; distinct by (side, remaining, increment, token order). One go in seven has its four clock pairs interleaved with movestogo / depth / nodes pairs (its twin keeps the layout and replaces the opponent's values); one in ten (one in three of the long-think sims) carries a searchmoves list before or after the clocks. One go in thirty writes its numbers with leading zeros; in a third of the budget-only sims clock reads cost up to 5 ms and the process is descheduled for 1 ms-3 s at a few early reads.".into(),
         extra: serde_json::Map::new(),
         assumptions: vec!["the oracle reads wtime/btime/winc/binc as 'token followed by its value, in any order'; nothing is asserted about the allocation formula".into()],
         exhaustive: None,
